@@ -1331,6 +1331,8 @@ class Machine:
             v = self.ev(args[0], env)
             # copy / conversion constructor of an unmodelled type: the value itself
             return self.copyval(v)
+        if not args:
+            return self.default_value(ty, None, env)     # default-initialised object of an unmodelled type
         raise Unab("construction of %s with %d arguments" % (ty, len(args)))
 
     # ---- statements ----------------------------------------------------------------------------------------
@@ -1379,6 +1381,12 @@ class Machine:
         if isref and (is_ref(r) or isinstance(r, OptValue)):
             env.bind(nm, r)
             return
+        rr = self.rv(r)
+        if "array<" in (ty or "") and isinstance(rr, Vec) and len(rr.items) == 1 and isinstance(self.rv(rr.items[0]), Vec):
+            m_ = re.search(r",\s*(\d+)\s*>\s*$", (ty or "").replace("const ", "").strip())
+            inner = self.rv(rr.items[0])
+            if m_ is None or len(inner.items) == int(m_.group(1)):
+                r = inner              # std::array aggregate initialised with the extra pair of braces
         val = self.copyval(r)
         if is_int_type(ty) and isinstance(simp(val) if is_num(val) else None, Fraction):
             q = simp(val)
@@ -1420,7 +1428,7 @@ class Machine:
                     if h is not None:
                         h(v.get("name"), re.sub(r"\s+", "", v.get("type", {}).get("qualType", "")), env)
                     continue
-                elif vk in ("StaticAssertDecl", "UsingDecl", "UsingDirectiveDecl", "CXXRecordDecl", "EnumDecl", "UsingShadowDecl"):
+                elif vk in ("StaticAssertDecl", "UsingDecl", "UsingDirectiveDecl", "CXXRecordDecl", "EnumDecl", "UsingShadowDecl", "UsingEnumDecl"):
                     continue
                 else:
                     raise Unab("declaration kind %s" % vk)
